@@ -23,6 +23,10 @@ heappush / heappop preserve the heap invariant and the multiset of keys), `C12_h
 `C12_heap_refines_queue`, `C12_heap_pops_increasing`; the Kahn loop on the real binary heap (`Model/SortHeap.lean`)
 pops the same nodes as the `maxKey` loop: `C12_heap_kahn_refines`, `C12_heap_sort_refines`
 (`Lemmas/Heap.lean`, `Lemmas/SortHeap.lean`).
+Part I: the full pass refines the container-level pass (`C12_passF_refines_passW`; `Lemmas/SortPass.lean`), a successful
+pass leaves every graph-like sorted at the END of the pass (`C12_pass_success_sorted`, `C12_passF_success_sorted`).
+Part J: the pass after the proposed fix D392 (`passWD` / `passFD`: only graph-likes whose order changed are re-extended):
+`C12_state_pass_atomic_D392`, `C12_passF_refines_passW_D392`.
 -/
 import IrVerif.Lemmas.SortAcyclic
 import IrVerif.Lemmas.SortRename
